@@ -7,7 +7,8 @@ namespace sim {
 
 struct FontInfo {
     std::string name;
-    std::vector<u32> cps;                  // code points mapped by the font's cmap (capped)
+    std::vector<u32> cps;                  // code points mapped by the font's cmap (capped) plus the pseudo-glyph characters
+    std::vector<u32> pseudo;               // characters of the Silf pseudo-glyph map
     std::vector<int> texts;                // indices of text files the font covers well
     std::vector<std::vector<u32>> fixed;   // fonttest strings
     bool has_just = false;                 // justification passes / line-end contextuals / justify attrs
@@ -32,6 +33,7 @@ Fault gen_store_fault(Rng &r, const FontImage &fi);
 Fault gen_file_fault(Rng &r, const FontImage &fi);
 Fault gen_code_fault(Rng &r, const FontImage &fi);
 Fault gen_loop_fault(Rng &r, const FontImage &fi);
+Fault gen_pseudo_fault(Rng &r, const FontImage &fi);
 void gen_faults(Rng &r, const FontImage &fi, int source, std::vector<Fault> &out, int maxn = 4);
 std::vector<u32> sample_cps(Rng &r, const std::string &font, size_t n);
 
